@@ -27,14 +27,20 @@ class Feature:
             raise UnsupportedLinkType(str(type(data)), LinkType.Tagged)
         id_ = util.create_id()
         h5group = h5parent.open_group(id_)
-        h5group.set_attr("entity_id", id_)
-        newfeature = cls(nixfile, nixparent, h5group)
-        newfeature.link_type = link_type
-        newfeature.data = data
-        newfeature._h5group.set_attr("created_at",
-                                     util.time_to_str(util.now_int()))
-        newfeature._h5group.set_attr("updated_at",
-                                     util.time_to_str(util.now_int()))
+        try:
+            h5group.set_attr("entity_id", id_)
+            newfeature = cls(nixfile, nixparent, h5group)
+            newfeature.link_type = link_type
+            newfeature.data = data
+            newfeature._h5group.set_attr("created_at",
+                                         util.time_to_str(util.now_int()))
+            newfeature._h5group.set_attr("updated_at",
+                                         util.time_to_str(util.now_int()))
+        except Exception:
+            # do not leave a half-created feature behind (e.g. invalid data)
+            if id_ in h5parent:
+                del h5parent[id_]
+            raise
 
         return newfeature
 
